@@ -105,6 +105,11 @@ func (ip *IndexPos) loadChunk() error {
 	}
 	chunk, err := ip.Store.GetChunk(ip.curChunkID)
 	if err != nil {
+		// A store failing with io.EOF (connection closed by the peer) must not
+		// be taken for the end of the blob by whoever calls Read().
+		if err == io.EOF {
+			err = io.ErrUnexpectedEOF
+		}
 		return err
 	}
 	b, err := chunk.Data()
